@@ -983,6 +983,8 @@ class Engine:
                 if not self.decide(c):
                     break
                 n += 1
+                if self.loop_bound is not None and n > self.loop_bound:
+                    self.throw("NonTermination", "loop exceeded the harness' termination bound")
                 if n > self.LOOP_BOUND:
                     raise Inconclusive(f"loop unwinding bound {self.LOOP_BOUND} exceeded (line {st.lineno})")
                 try:
